@@ -481,6 +481,9 @@ func ValidateTraces(ctx *core.Ctx, events []string, label string) ([]TraceVerdic
 		}
 		sb.WriteString("]}\n")
 	}
+	if d := os.Getenv("VERIF_DEV_KEEPTRACE"); d != "" {
+		os.WriteFile(d, []byte(sb.String()), 0o644)
+	}
 	cfg := "CONSTANTS Skew = 2 ZeroBound = 3\nINIT Init\nNEXT Next\nINVARIANT Report\nPOSTCONDITION TraceAccepted\nCHECK_DEADLOCK FALSE\n"
 	res, err := ctx.RunTLC(core.TLCOpts{Module: "SoyLexParseTrace", Cfg: cfg, Files: map[string][]byte{"lexparse_trace.ndjson": []byte(sb.String())},
 		Workers: 1, Timeout: 8 * time.Minute, Label: label})
